@@ -78,8 +78,12 @@ func cmdReplay(args []string) int {
 					}
 				}
 				if !found {
-					fmt.Printf("replay diverged at step %d: %q not enabled (enabled: %v)\n", si, a, enabled)
-					return 2
+					// The recorded violation may already have reproduced before this point
+					// (e.g. code under test that consults an unowned source of nondeterminism).
+					if !*quiet && i == 0 {
+						fmt.Printf("replay diverged at step %d: %q not enabled (enabled: %v)\n", si, a, enabled)
+					}
+					break
 				}
 				if !*quiet && i == 0 {
 					fmt.Printf("%3d %s\n", si, a)
